@@ -12,6 +12,7 @@ checks directly what no theorem carries here: the tree is really gone on success
 survive, garbage collection stays inside the tree.
 -/
 import GoUtils.Proofs.Rm
+import GoUtils.Proofs.RmGone
 import GoUtils.Generated.Rm
 import GoUtils.Generated.Excl
 import GoUtils.Verdict
@@ -69,6 +70,36 @@ theorem C04_cleanDir_outside_untouched (c : Cfg) (hc : c.linkFirst = true) (fuel
     (r : Res) (t' : Tree) (hnl : ∀ tg, lookup t p ≠ some (.link tg)) (h : cleanDir c fuel t p = some (r, t')) :
     ∀ q, under p q = false → lookup t' q = lookup t q :=
   cleanDir_frame c hc fuel t p r t' hnl h
+
+/-- "when the call reports success without exclusion patterns the tree is really gone, dangling links
+    included": for every well-formed tree (unique keys, every proper prefix of a key is a directory entry),
+    every fuel and every path, a link-first removal without excluded names that answers `ok` leaves no entry
+    at or below the path, keeps every other entry, and leaves a well-formed tree -/
+theorem C04_really_gone (c : Cfg) (hl : c.linkFirst = true) (hx : c.excluded = []) (hf : 0 < c.linkFuel)
+    (fuel : Nat) (t : Tree) (p : Path) (t' : Tree) (w : WFm t) (hp : p ≠ [])
+    (h : remove c fuel t p = some (.ok, t')) :
+    (∀ e ∈ t', under p e.1 = false) ∧ (∀ e ∈ t, under p e.1 = false → e ∈ t') ∧ (∀ e ∈ t', e ∈ t) ∧ WFm t' := by
+  obtain ⟨r, _⟩ := remove_gone fuel c hl hx hf t p t' w hp h
+  exact ⟨r.gone, r.keep, r.sub, r.wf⟩
+
+/-- non-vacuity: a well-formed tree with a dangling link and a link out of the tree -/
+def wfTree : Tree := [([1], .dir), ([1, 7], .link [9]), ([1, 8], .link [2]), ([2], .dir), ([2, 5], .file 3)]
+
+theorem wfTree_wf : WFm wfTree := by
+  refine ⟨by decide, by decide, ?_⟩
+  intro e he a ha hu hne
+  have hpre := (under_iff a e.1).1 hu
+  simp only [wfTree, List.mem_cons, List.mem_nil_iff, or_false] at he
+  rcases he with rfl | rfl | rfl | rfl | rfl <;> simp only at hpre hne ⊢
+  all_goals
+    obtain ⟨r, hr⟩ := hpre
+    match a, r, hr with
+    | [], _, _ => exact absurd rfl ha
+    | [x], [], h => (simp at h) <;> (subst h; exact absurd rfl hne)
+    | [x], [y], h => (simp at h) <;> (obtain ⟨rfl, rfl⟩ := h; decide)
+    | [x, y], [], h => (simp at h) <;> (obtain ⟨rfl, rfl⟩ := h; exact absurd rfl hne)
+
+example : remove lstatCfg 20 wfTree [1] = some (.ok, [([2], .dir), ([2, 5], .file 3)]) := by decide
 
 /-- second defect of the link-following variant: a dangling link is taken for a missing entry, the
     removal reports success and the tree is still there -/
